@@ -356,7 +356,7 @@ func (k *Case) Do(step []any) error {
 		var b []byte
 		switch kind {
 		case "garbage":
-			b = GarbageFrame(k.rng.Intn(6))
+			b = GarbageFrame(k.rng.Intn(len(GarbageClasses)))
 		case "unknown":
 			b = UnknownTagFrame(UnknownTag, c.Dotu)
 		case "oversize":
